@@ -289,20 +289,22 @@ class load(DataStreamProcessor):
 
     @staticmethod
     def rename_duplicate_headers(duplicate_headers, case_sensitive=True, deduplicate_format=' (%s)'):
+        def key(header):
+            return header if case_sensitive else header.lower()
+
+        header_keys = [key(header) for header in duplicate_headers]
+        # Names that are already in use by headers that stay as they are
+        taken = set(k for k in header_keys if header_keys.count(k) == 1)
         counter = {}
         headers = []
-        header_keys = []
-        for header in duplicate_headers:
-            header_key = header
-            if not case_sensitive:
-                header_key = header_key.lower()
-            header_keys.append(header_key)
-            counter.setdefault(header_key, 0)
-            counter[header_key] += 1
-            if counter[header_key] > 1:
-                if counter[header_key] == 2:
-                    prev_index = header_keys.index(header_key) 
-                    headers[prev_index] = ('%s' + deduplicate_format) % (headers[prev_index], 1)
-                header = ('%s' + deduplicate_format) % (header, counter[header_key])
+        for header, header_key in zip(duplicate_headers, header_keys):
+            if header_keys.count(header_key) > 1:
+                while True:
+                    counter[header_key] = counter.get(header_key, 0) + 1
+                    candidate = ('%s' + deduplicate_format) % (header, counter[header_key])
+                    if key(candidate) not in taken:
+                        break
+                taken.add(key(candidate))
+                header = candidate
             headers.append(header)
         return headers
